@@ -44,38 +44,63 @@ TYPE_NAMES = {
 }
 
 
-def wrapped_returns(fn: ast.FunctionDef, allowed: Set[str]) -> Tuple[bool, str]:
-    """Every return is a constructor call of an allowed class, NotImplemented, or the
-    variable just compared with NotImplemented."""
-    rets = [n for n in ast.walk(fn) if isinstance(n, ast.Return) and n.value is not None]
+def wrapped_returns(fn: ast.FunctionDef, allowed: Set[str], mod=None, cls: Optional[ast.ClassDef] = None, errors_ok: bool = True) -> Tuple[Optional[bool], str]:
+    """On every returning path the value is a constructor call of an allowed class, NotImplemented, the very
+    expression the path compared equal to NotImplemented, or (errors_ok) an operand the path found to be a
+    CELEvalError.  Path-based: locals are followed, helpers of the same class / module are expanded."""
+    from ..core.paths import PathWalker, flat_conds, is_unknown
+
+    try:
+        paths = PathWalker(mod, cls).paths(fn)
+    except OverflowError:
+        return None, "too many paths"
+    rets = [p for p in paths if p.kind == "return" and p.value is not None]
     if not rets:
-        # all paths raise: nothing is returned
         return True, "raises on every path"
-    for r in rets:
-        v = strip_cast(r.value)
-        if isinstance(v, ast.Call):
-            name = (dotted(v.func) or "").split(".")[-1]
-            if name in allowed:
-                continue
-            return False, f"`{ast.unparse(r)[:70]}` does not build {sorted(allowed)}"
+
+    def ok_value(v: ast.expr, conds) -> Optional[bool]:
+        v = strip_cast(v)
+        if isinstance(v, ast.IfExp):
+            a, b = ok_value(v.body, conds), ok_value(v.orelse, conds)
+            return None if None in (a, b) else (a and b)
+        if isinstance(v, ast.Call) and (dotted(v.func) or "").split(".")[-1] in allowed:
+            return True
         if isinstance(v, ast.Name) and v.id == "NotImplemented":
-            continue
-        if isinstance(v, ast.Name):
-            # a local assigned only from allowed constructor calls
-            vals = [strip_cast(a.value) for a in ast.walk(fn) if isinstance(a, (ast.Assign, ast.AnnAssign)) and a.value is not None
-                    and any(isinstance(t, ast.Name) and t.id == v.id for t in (a.targets if isinstance(a, ast.Assign) else [a.target]))]
-            if vals and all(isinstance(x, ast.Call) and (dotted(x.func) or "").split(".")[-1] in allowed for x in vals):
+            return True
+        txt = ast.unparse(v)
+        if isinstance(v, ast.Name) and v.id.startswith("<any:"):
+            # assigned in a loop / try: every value ever assigned to the name must qualify
+            nm = v.id[5:-1]
+            vals = [a.value for a in ast.walk(fn) if isinstance(a, (ast.Assign, ast.AnnAssign)) and a.value is not None
+                    and any(isinstance(t, ast.Name) and t.id == nm for t in (a.targets if isinstance(a, ast.Assign) else [a.target]))]
+            not_none = any((isinstance(t, ast.Compare) and len(t.ops) == 1 and ast.unparse(strip_cast(t.left)) == v.id and ast.unparse(t.comparators[0]) == "None"
+                            and ((isinstance(t.ops[0], ast.Is) and not pol) or (isinstance(t.ops[0], ast.IsNot) and pol))) for t, pol in conds)
+            if not_none:
+                vals = [x for x in vals if not (isinstance(x, ast.Constant) and x.value is None)]
+            rs = [ok_value(x, []) for x in vals]
+            if vals and all(r is True for r in rs):
+                return True
+            return None if (not vals or None in rs) else False
+        if is_unknown(v):
+            return None
+        for t, pol in conds:
+            if not pol:
                 continue
-            # accepted only under `if v == NotImplemented`
-            p = getattr(r, "_parent", None)
-            ok = False
-            while p is not None and p is not fn:
-                if isinstance(p, ast.If) and "NotImplemented" in ast.unparse(p.test) and v.id in ast.unparse(p.test):
-                    ok = True
-                p = getattr(p, "_parent", None)
-            if ok:
-                continue
-        return False, f"`{ast.unparse(r)[:70]}` returns an unwrapped value"
+            if isinstance(t, ast.Compare) and len(t.ops) == 1 and isinstance(t.ops[0], (ast.Eq, ast.Is)) and ast.unparse(t.comparators[0]) == "NotImplemented" and ast.unparse(strip_cast(t.left)) == txt:
+                return True
+            if errors_ok and isinstance(t, ast.Call) and dotted(t.func) == "isinstance" and len(t.args) == 2 and ast.unparse(strip_cast(t.args[0])) == txt and "CELEvalError" in ast.unparse(t.args[1]):
+                return True
+        return False
+
+    unknown = None
+    for p in rets:
+        r = ok_value(p.value, flat_conds(p.conds))
+        if r is False:
+            return False, f"`return {ast.unparse(p.value)[:70]}` does not build {sorted(allowed)}"
+        if r is None:
+            unknown = ast.unparse(p.value)[:60]
+    if unknown is not None:
+        return None, f"the value returned as `{unknown}` could not be followed"
     return True, f"every return builds {sorted(allowed)}"
 
 
@@ -112,8 +137,12 @@ def check(repo: Repo, run: Run) -> None:
                        f"{key} on {cname} resolves to the inherited {c.label()}: the result is a plain Python {c.owner}, not {sorted(allowed)} (type(x {key.strip('_')} y) != type(x))",
                        str(ct.path))
                 continue
-            ok, why = wrapped_returns(c.node, allowed)
-            run.ob("C13.W1", construct, ok, f"{construct}: {why}", ct.loc(c.node))
+            found = repo.find_class(c.owner)
+            ok, why = wrapped_returns(c.node, allowed, repo.mod(found[0]) if found else ct, found[1] if found else None, errors_ok=False)
+            if ok is None:
+                run.inconclusive("C13.W1", construct, why)
+            else:
+                run.ob("C13.W1", construct, ok, f"{construct}: {why}", ct.loc(c.node))
     run.floor("C13.W1", n, 30)
 
     # W2 ---------------------------------------------------------------
@@ -123,60 +152,50 @@ def check(repo: Repo, run: Run) -> None:
     for key, impl in sorted(impls.items()):
         if impl.kind == "func" and impl.module == "evaluation" and impl.name.startswith("function_"):
             n2 += 1
-            ok, why = wrapped_returns(impl.node, allowed)
-            run.ob("C13.W2", impl.name, ok, f"{impl.name}: {why}", ev.loc(impl.node))
+            ok, why = wrapped_returns(impl.node, allowed, ev)
+            if ok is None:
+                run.inconclusive("C13.W2", impl.name, why)
+            else:
+                run.ob("C13.W2", impl.name, ok, f"{impl.name}: {why}", ev.loc(impl.node))
     for mname, want in (("macro_map", {"ListType"}), ("macro_filter", {"ListType"}), ("macro_exists_one", {"BoolType"}),
                         ("macro_exists", {"BoolType"}), ("macro_all", {"BoolType"})):
         if ev.has(mname):
             n2 += 1
-            ok, why = wrapped_returns(ev.func(mname), want)
-            run.ob("C13.W2", mname, ok, f"{mname}: {why}", ev.loc(ev.func(mname)))
+            ok, why = wrapped_returns(ev.func(mname), want, ev)
+            if ok is None:
+                run.inconclusive("C13.W2", mname, why)
+            else:
+                run.ob("C13.W2", mname, ok, f"{mname}: {why}", ev.loc(ev.func(mname)))
     # boolean(): the inner function wraps in BoolType
     b = ev.func("boolean")
     inner = [s for s in b.body if isinstance(s, ast.FunctionDef)]
     if not inner:
         raise AnchorMissing("evaluation.boolean: no inner function")
-    ok, why = wrapped_returns(inner[0], {"BoolType"})
-    # error operands are returned as they are
-    rets = [n for n in ast.walk(inner[0]) if isinstance(n, ast.Return) and n.value is not None]
-    bad = []
-    for r in rets:
-        v = strip_cast(r.value)
-        if isinstance(v, ast.Call) and (dotted(v.func) or "").split(".")[-1] == "BoolType":
-            continue
-        if isinstance(v, ast.Name):
-            p = getattr(r, "_parent", None)
-            if isinstance(p, ast.If) and (("CELEvalError" in ast.unparse(p.test)) or ("NotImplemented" in ast.unparse(p.test))) and v.id in ast.unparse(p.test):
-                continue
-        bad.append(ast.unparse(r))
+    ok, why = wrapped_returns(inner[0], {"BoolType"}, ev)
     n2 += 1
-    run.ob("C13.W2", "boolean", not bad, "boolean() wraps every comparison result in BoolType" if not bad else f"boolean() returns {bad} unwrapped", ev.loc(b))
+    if ok is None:
+        run.inconclusive("C13.W2", "boolean", why)
+    else:
+        run.ob("C13.W2", "boolean", ok, "boolean() wraps every comparison result in BoolType (error operands and NotImplemented pass through)" if ok else f"boolean(): {why}", ev.loc(b))
     for key in ("_<_", "_<=_", "_>_", "_>=_", "_==_", "_!=_"):
         impl = impls.get(key)
         n2 += 1
         run.ob("C13.W2", f"relation {key}", impl is not None and impl.kind == "operator" and impl.wrapper == "boolean",
                f"{key} is implemented by {impl}" , str(ev.path))
     oi = ev.func("operator_in")
-    rets = [strip_cast(n.value) for n in ast.walk(oi) if isinstance(n, ast.Return) and n.value is not None]
-    okin = True
-    for v in rets:
-        if isinstance(v, ast.Call) and (dotted(v.func) or "").split(".")[-1] in ("BoolType", "CELEvalError"):
-            continue
-        if isinstance(v, ast.Name):
-            # a name assigned only BoolType(...) / CELEvalError(...) values, or an operand already known to be an error
-            vals = [strip_cast(a.value) for a in ast.walk(oi) if isinstance(a, (ast.Assign, ast.AnnAssign)) and a.value is not None
-                    and any(isinstance(t, ast.Name) and t.id == v.id for t in (a.targets if isinstance(a, ast.Assign) else [a.target]))]
-            if vals and all(isinstance(x, ast.Call) and (dotted(x.func) or "").split(".")[-1] in ("BoolType", "CELEvalError") for x in vals):
-                continue
-            if not vals and v.id in [a.arg for a in oi.args.args]:
-                continue
-        okin = False
+    okin, why = wrapped_returns(oi, {"BoolType", "CELEvalError"}, ev)
     n2 += 1
-    run.ob("C13.W2", "operator_in", okin, "operator_in returns BoolType or an error value on every path", ev.loc(oi))
+    if okin is None:
+        run.inconclusive("C13.W2", "operator_in", why)
+    else:
+        run.ob("C13.W2", "operator_in", okin, "operator_in returns BoolType or an error value on every path" if okin else f"operator_in: {why}", ev.loc(oi))
     mh = ev.func("Evaluator.macro_has_eval")
-    ok, why = wrapped_returns(mh, {"BoolType"})
+    ok, why = wrapped_returns(mh, {"BoolType"}, ev, ev.cls("Evaluator"))
     n2 += 1
-    run.ob("C13.W2", "Evaluator.macro_has_eval", ok, f"has(): {why}", ev.loc(mh))
+    if ok is None:
+        run.inconclusive("C13.W2", "Evaluator.macro_has_eval", why)
+    else:
+        run.ob("C13.W2", "Evaluator.macro_has_eval", ok, f"has(): {why}", ev.loc(mh))
     run.floor("C13.W2", n2, 25)
 
     # W3 ---------------------------------------------------------------
